@@ -1,6 +1,6 @@
 #!/bin/bash
-# Evaluates one delivered seed of the third batch:  tools/seedround3.sh <ID>   (reads /tmp/seedout3/<ID>/)
-id=$1; d=/tmp/seedout3/$id
+# Evaluates one delivered seed of the third batch:  tools/seedround3.sh <ID>   (reads ${SEEDOUT:-/tmp/seedout3}/<ID>/)
+id=$1; d=${SEEDOUT:-/tmp/seedout3}/$id
 [ -f $d/meta.json ] || { echo "=== $id: no meta.json yet"; exit 0; }
 dest=$(python3 - "$d" <<'PY'
 import json,re,sys
